@@ -63,6 +63,7 @@ class Ctl:
         self.cast_traps = []
         self.obligations = []  # (name, formula)
         self.notes = []
+        self.memo = {}  # (kind, ast ids) -> (fresh var, kept asts): quotient / root / modulus variables
 
     # -- assumptions (stub contracts, definitions of fresh quotients / roots)
     def assume(self, f, text=None):
@@ -388,9 +389,16 @@ class Z:
         if z3.eq(num_s, z3.simplify(-den_s)) or z3.eq(z3.simplify(-num_s), den_s):
             _nonzero(den_s)
             return z3.RealVal(-1)
+        # one quotient variable per (num, den): x/y computed twice is the same term
+        c = ctl()
+        key = ("q", num_s.get_id(), den_s.get_id())
+        hit = c.memo.get(key)
+        if hit is not None:
+            return hit[0]
         _nonzero(den_s)
         q = fresh_real("q")
-        ctl().assume(q * den_s == num_s, "quotient definition q*den==num")
+        c.assume(q * den_s == num_s, "quotient definition q*den==num")
+        c.memo[key] = (q, num_s, den_s)
         return q
 
     def __truediv__(s, o):
@@ -445,14 +453,27 @@ class Z:
                 rn, rd = math.isqrt(fr.numerator), math.isqrt(fr.denominator)
                 if rn * rn == fr.numerator and rd * rd == fr.denominator:
                     return Z(z3.Q(rn, rd))
+        c = ctl()
+        key = ("sqrt", x.get_id())
+        hit = c.memo.get(key)
+        if hit is not None:
+            return Z(hit[0])
         r = fresh_real("sqrt")
-        ctl().assume(z3.And(r >= 0, r * r == x), "root definition r>=0, r*r==x (x>=0 obliged)")
+        c.assume(z3.And(r >= 0, r * r == x), "root definition r>=0, r*r==x (x>=0 obliged)")
+        c.memo[key] = (r, x)
         return Z(r)
 
     def __abs__(s):
         if s.im is not None:
+            c = ctl()
+            m2 = z3.simplify(s.re * s.re + s.im * s.im)
+            key = ("abs", m2.get_id())
+            hit = c.memo.get(key)
+            if hit is not None:
+                return Z(hit[0])
             r = fresh_real("abs")
-            ctl().assume(z3.And(r >= 0, r * r == s.re * s.re + s.im * s.im), "modulus definition")
+            c.assume(z3.And(r >= 0, r * r == m2), "modulus definition")
+            c.memo[key] = (r, m2)
             return Z(r)
         # lazily: |x|**2 and |x|*|x| never need the sign; any other use forks three ways on it
         return ZAbs(s.re)
